@@ -6214,3 +6214,7 @@ mod tests {
 		assert_eq!(results, expected);
 	}
 }
+
+#[cfg(surrealkv_verif)]
+#[path = "../verif/btree_pages.rs"]
+mod verif_pages;
